@@ -886,6 +886,8 @@ def run(tier, seed):
         tr = Track(Instrument()) if how == "instrument" else Track()
         if how in ("track", "instrument"):
             tr.set_tuning(t)
+        if how == "both":            # the track has a tuning of its own; another one is passed to the writer, which wins
+            tr.set_tuning(std if t is not std else plain[1])
         for _ in range(nbars):
             if rnd.random() < p_empty:
                 tr.add_bar(Bar())
@@ -913,7 +915,7 @@ def run(tier, seed):
         opens = opens_of(t)
         pre = label_cols(t) + 2
         for j in range(per):
-            how = rnd.choice(["argument", "track", "instrument", "default"])
+            how = rnd.choice(["argument", "track", "instrument", "default", "both"])
             tt = std if how == "default" else t
             oo = opens_of(tt)
             tr = random_track(tt, oo, rnd.randint(1, 7), 0.3 if rnd.random() < 0.1 else 0.0,
@@ -932,7 +934,7 @@ def run(tier, seed):
             kw = {}
             if page is not None:
                 kw["maxwidth"] = page
-            if how == "argument":
+            if how in ("argument", "both"):
                 kw["tuning"] = tt
             try:
                 txt = tab.from_Track(tr, **kw)
